@@ -216,8 +216,97 @@ def rule_systematic_matrix(repo: Repo, rep: Report) -> int:
     return 4
 
 
+#: sample generator matrices for the evaluated null-space rule: systematic left / right, unit columns out of order, a unit
+#: parity column in front of the information columns, positions {6,7,8} (set iteration order 8,6,7), non-systematic with a
+#: singular leading block (RM(1,3)), row swap needed, dependent leading columns
+NULL_SPACE_SAMPLES = (
+    [[1, 0, 0, 1, 1], [0, 1, 0, 1, 0], [0, 0, 1, 0, 1]],
+    [[1, 1, 0], [1, 0, 1]],
+    [[0, 1, 1, 1], [1, 1, 0, 1]],
+    [[0, 1, 0, 1, 1], [1, 0, 0, 0, 1], [0, 0, 1, 1, 0]],
+    [[1, 0, 1, 0, 1], [0, 0, 1, 1, 0]],
+    [[1, 1, 0, 1, 1, 0, 1, 0, 0], [0, 1, 1, 1, 0, 1, 0, 1, 0], [1, 1, 1, 0, 0, 0, 0, 0, 1]],
+    [[1, 1, 1, 1, 1, 1, 1, 1], [0, 1, 0, 1, 0, 1, 0, 1], [0, 0, 1, 1, 0, 0, 1, 1], [0, 0, 0, 0, 1, 1, 1, 1]],
+    [[0, 1, 1, 0], [1, 1, 0, 1]],
+    [[1, 1, 0, 1, 0], [1, 1, 1, 0, 1], [0, 0, 0, 1, 1]],
+)
+
+
+def aliasing_swaps(fi: FuncInfo):
+    """`a[i], a[j] = a[j], a[i]` on tensor rows: the right-hand sides are views, so after the first store both rows are
+    equal - a construct whose meaning the value-semantics evaluator does not reproduce, reported on its own."""
+    out = []
+    for st in ast.walk(fi.node):
+        if isinstance(st, ast.Assign) and len(st.targets) == 1 and isinstance(st.targets[0], ast.Tuple) and isinstance(st.value, ast.Tuple):
+            tg, vs = st.targets[0].elts, st.value.elts
+            if len(tg) == 2 and len(vs) == 2 and all(isinstance(x, ast.Subscript) for x in tg + vs):
+                bases = {unparse(x.value) for x in tg + vs}
+                if len(bases) == 1 and unparse(tg[0]) == unparse(vs[1]) and unparse(tg[1]) == unparse(vs[0]):
+                    out.append(st)
+    return out
+
+
+def null_space_evaluated(repo: Repo, fi: FuncInfo):
+    """Run compute_null_space_matrix (helpers inlined) on NULL_SPACE_SAMPLES: H has n - k independent rows and
+    G H^T = 0 over GF(2); the elimination helper keeps 0/1 entries and T G = R exactly."""
+    from .. import gf2
+    from ..constfold import Unfoldable
+    from ..frag import FragRaise, FragReturn, run_fragment
+
+    funcs = {nm: f.node for nm, f in fi.module.functions.items() if nm != fi.name}
+    for f_ in [fi] + [fi.module.functions[nm] for nm in ("_gf2_row_reduce",) if nm in fi.module.functions]:
+        sw = aliasing_swaps(f_)
+        if sw:
+            return VIOLATION, f"`{unparse(sw[0])}` in {f_.name}: the right-hand sides are views of the tensor, so after the first store both rows hold the same values (the rows are not exchanged): the transformation that accompanies the elimination becomes singular and the right inverse / null space built from it is wrong", sw[0]
+    for G in NULL_SPACE_SAMPLES:
+        k, n = len(G), len(G[0])
+        try:
+            run_fragment(fi.body, {"matrix": [list(r) for r in G]}, {}, max_steps=400000, materialise=True, funcs=funcs)
+            return UNDECIDED, "no value returned", None
+        except FragReturn as r:
+            H = r.value
+        except (Unfoldable, FragRaise, TypeError, IndexError) as exc:
+            return UNDECIDED, f"not evaluable ({exc})", None
+        if not (isinstance(H, list) and all(isinstance(r_, list) and len(r_) == n for r_ in H)):
+            return UNDECIDED, f"result is not a matrix with {n} columns", None
+        Hi = [[int(x) % 2 for x in r_] for r_ in H]
+        if any(x not in (0, 1, 0.0, 1.0) for r_ in H for x in r_):
+            return VIOLATION, f"for G = {G} the returned matrix has entries outside {{0, 1}}", None
+        prod = [[sum(G[i][t] * Hi[j][t] for t in range(n)) % 2 for j in range(len(Hi))] for i in range(k)]
+        rkG = gf2.rank(gf2.rows_to_masks(G))
+        if any(any(row) for row in prod):
+            return VIOLATION, f"for G = {G} the returned H = {Hi} is not orthogonal to the code: G H^T = {prod} over GF(2) (codewords get non-zero syndromes)", None
+        if len(Hi) != n - rkG or gf2.rank(gf2.rows_to_masks(Hi)) != n - rkG:
+            return VIOLATION, f"for G = {G} the returned H has {len(Hi)} rows of rank {gf2.rank(gf2.rows_to_masks(Hi)) if Hi else 0}; the null space has dimension {n - rkG}", None
+    if "_gf2_row_reduce" in fi.module.functions:
+        h = fi.module.functions["_gf2_row_reduce"]
+        for G in NULL_SPACE_SAMPLES:
+            try:
+                run_fragment(h.body, {h.params[0]: [list(r) for r in G]}, {}, max_steps=400000, materialise=True, funcs=funcs)
+                return UNDECIDED, "elimination helper returns nothing", None
+            except FragReturn as r:
+                out = r.value
+            except (Unfoldable, FragRaise, TypeError, IndexError) as exc:
+                return UNDECIDED, f"elimination helper not evaluable ({exc})", None
+            if not (isinstance(out, list) and len(out) == 3):
+                return UNDECIDED, "elimination helper: unexpected result", None
+            R, T, piv = out
+            if any(x not in (0, 1, 0.0, 1.0) for M_ in (R, T) for r_ in M_ for x in r_):
+                return VIOLATION, f"for G = {G} the elimination leaves entries outside {{0, 1}} in the reduced matrix / transformation ({[x for r_ in T for x in r_ if x not in (0, 1)][:3]}...): the row operations are not carried out over GF(2), the entries grow with every addition and exceed what float32 represents exactly for larger k (the mod-2 reduction applied afterwards then returns wrong bits)", None
+            TG = [[sum(int(T[i][t]) * G[t][j] for t in range(len(G))) % 2 for j in range(len(G[0]))] for i in range(len(G))]
+            if TG != [[int(x) for x in r_] for r_ in R]:
+                return VIOLATION, f"for G = {G} the returned transformation does not satisfy T G = R over GF(2)", None
+    return OK, f"G H^T = 0 and rank H = n - k on {len(NULL_SPACE_SAMPLES)} sample generators (systematic, permuted unit columns, singular leading block); elimination keeps 0/1 entries and T G = R", None
+
+
 def rule_null_space(repo: Repo, rep: Report) -> int:
     fi = repo.func(LIN, "compute_null_space_matrix")
+    est, edetail, enode = null_space_evaluated(repo, fi)
+    if est in (OK, VIOLATION):
+        rep.add("VERIFIED-RETURN", fi, "compute_null_space_matrix evaluated on sample generator matrices", est, edetail, node=enode or fi.node)
+        lint_literal_fallback(rep, fi, "G2")
+        li = repo.func(f"{ENC}/ldpc_code.py", "LDPCCodeEncoder.get_generator_matrix")
+        return 2 + ldpc_generator_rule(rep, li)
     n = verified_return_rule(rep, "VERIFIED-RETURN", fi, "matrix", "null", {"_gf2_row_reduce"})
     lint_literal_fallback(rep, fi, "G2")
     n += 1
@@ -391,8 +480,65 @@ def rule_info_set_dependence(repo: Repo, rep: Report) -> int:
     return n
 
 
+def rule_row_reduction(repo: Repo, rep: Report) -> int:
+    """`fec/utils.py::row_reduction(matrix, num_cols)` is what the LDPC encoder derives its generator from ([H^T | I]
+    reduced over the first m columns; rank = second return value).  The function is run (own arithmetic) on sample
+    matrices - more checks than bits and dependent rows included - and its result is compared with what the callers rely
+    on: the returned rank is the GF(2) rank of the first num_cols columns, the reduced matrix spans the same row space,
+    its first `rank` rows are in reduced echelon form on those columns and the remaining rows vanish there."""
+    from .. import gf2
+    from ..constfold import Unfoldable
+    from ..frag import FragRaise, FragReturn, run_fragment
+
+    fi = repo.func("kaira/models/fec/utils.py", "row_reduction")
+    samples = [
+        ([[1, 1, 1, 0, 1, 0, 0], [1, 1, 1, 1, 0, 1, 0], [0, 0, 0, 1, 0, 0, 1]], 4),  # [H^T | I] of a 4 x 3 check matrix (more checks than bits)
+        ([[1, 0, 1, 1, 0, 0], [0, 1, 1, 0, 1, 0], [1, 1, 0, 0, 0, 1]], 3),
+        ([[1, 1, 0, 1], [1, 1, 0, 1], [0, 1, 1, 0]], None),
+        ([[0, 0, 1, 1, 0], [0, 1, 0, 1, 1], [1, 0, 0, 0, 1], [1, 1, 1, 0, 0]], 5),
+        ([[1, 0], [0, 1], [1, 1]], 2),
+    ]
+    what = "row_reduction(matrix, num_cols): reduced matrix and rank"
+    for M, nc in samples:
+        try:
+            run_fragment(fi.body, {"matrix": [list(r) for r in M], "num_cols": nc}, {}, max_steps=60000)
+            rep.undecided("ROW-REDUCTION", fi, what, "no value returned")
+            return 1
+        except FragReturn as r:
+            got = r.value
+        except (Unfoldable, FragRaise, TypeError, IndexError) as exc:
+            rep.undecided("ROW-REDUCTION", fi, what, f"not evaluable ({exc})")
+            return 1
+        if not (isinstance(got, list) and len(got) == 2 and isinstance(got[1], int) and isinstance(got[0], list)):
+            rep.undecided("ROW-REDUCTION", fi, what, f"unexpected result {str(got)[:60]}")
+            return 1
+        R, rk = [[int(x) % 2 for x in row] for row in got[0]], got[1]
+        ncols = len(M[0]) if nc is None else nc
+        sub_rank = gf2.rank(gf2.rows_to_masks([row[:ncols] for row in M]))
+        bad = None
+        if rk != sub_rank:
+            bad = f"the returned rank is {rk}; the GF(2) rank of the first {ncols} columns is {sub_rank}"
+        elif gf2.rank(gf2.rows_to_masks(M)) != gf2.rank(gf2.rows_to_masks(M + R)) or gf2.rank(gf2.rows_to_masks(R)) != gf2.rank(gf2.rows_to_masks(M)):
+            bad = "the reduced matrix does not span the row space of the input"
+        elif any(any(row[:ncols]) for row in R[rk:]):
+            bad = f"a row below the first {rk} is not zero on the first {ncols} columns"
+        else:
+            piv = []
+            for row in R[:rk]:
+                lead = next((j for j in range(ncols) if row[j]), None)
+                piv.append(lead)
+            if None in piv or piv != sorted(piv) or len(set(piv)) != len(piv) or any(R[i2][pj] for pi_, pj in enumerate(piv) for i2 in range(len(R)) if i2 != pi_):
+                bad = f"the first {rk} rows are not in reduced echelon form on the first {ncols} columns (pivots {piv})"
+        if bad:
+            rep.violation("ROW-REDUCTION", fi, what, f"for the {len(M)} x {len(M[0])} matrix {M} with num_cols={nc}: {bad} - the LDPC encoder takes the rows from `rank` on as its generator, so the code it publishes is not the null space of H", node=fi.node)
+            return 1
+    rep.ok("ROW-REDUCTION", fi, what, f"rank, row space and reduced echelon form on the first num_cols columns hold on {len(samples)} sample matrices (own GF(2) arithmetic)", node=fi.node)
+    return 1
+
+
 def run(repo: Repo, rep: Report, tier: str) -> None:
     n = rule_encode_form(repo, rep)
+    n += rule_row_reduction(repo, rep)
     n += rule_overrides(repo, rep)
     n += rule_systematic_matrix(repo, rep)
     n += rule_null_space(repo, rep)
